@@ -303,6 +303,7 @@ class _Ctx:
         self.defs: List[dict] = []
         self.clips: List[str] = []
         self.grads: List[str] = []
+        self.clip_use_ids: List[str] = []
 
     def new_id(self, prefix="e"):
         self.nid += 1
@@ -430,7 +431,7 @@ def _gen_nested_svg(draw, cx, depth, hook):
     cx.box = inner
     k = draw(st.integers(1, 2))
     for _ in range(k):
-        n["c"].append(_gen_content(draw, cx, depth + 1, hook, allow_nested=False))
+        n["c"].append(_gen_content(draw, cx, depth + 1, hook, allow_nested=(depth <= 1 and getattr(cx.cfg, "nested_nested", True))))
     cx.box = saved
     cx.feat.add("nested-svg")
     return n
@@ -512,6 +513,19 @@ def _gen_clippath(draw, cx):
     k = draw(st.sampled_from([1, 1, 2, 3]))
     saved_cfg = cx.cfg
     for _ in range(k):
+        if cx.clip_use_ids and draw(st.integers(0, 4)) == 0:
+            # a <use> child instancing a plain shape from defs
+            ua = {"xlink:href": f"#{draw(st.sampled_from(cx.clip_use_ids))}"}
+            if draw(st.booleans()):
+                ua["x"] = fmt(round(draw(st.integers(-20, 20)) / 100 * cx.box.w, 2))
+            if draw(st.booleans()):
+                ua["y"] = fmt(round(draw(st.integers(-20, 20)) / 100 * cx.box.h, 2))
+            u = node("use", ua)
+            if cx.cfg.transforms and draw(st.integers(0, 2)) == 0:
+                u["a"]["transform"] = draw(transform_list(cx.box))
+            cp["c"].append(u)
+            cx.feat.add("clip-child-use")
+            continue
         ch = draw(shape(cx.cfg, cx.box, kinds=["rect", "circle", "ellipse", "polygon", "path", "ring", "ring", "star"]))
         if ch["tag"] in ("path", "polygon") and draw(st.booleans()):
             if draw(st.booleans()):
@@ -619,6 +633,15 @@ def document_ast(draw, cfg: Cfg, hook=None, root_hook=None):
         if draw(st.booleans()):
             defs["c"].reverse()  # templates declared after their users
             cx.feat.add("gradient-template-after-user")
+    if cfg.clip and cfg.use and draw(st.booleans()):
+        # plain shapes (no clip, no paint needed) that clipPaths may instance through <use>
+        for _ in range(draw(st.integers(1, 2))):
+            n = draw(shape(cfg, box, kinds=["rect", "circle", "polygon", "ring", "star", "path"]))
+            n["a"]["id"] = cx.new_id("cs")
+            if cfg.transforms and draw(st.integers(0, 3)) == 0:
+                n["a"]["transform"] = draw(transform_list(box))
+            cx.clip_use_ids.append(n["a"]["id"])
+            defs["c"].append(n)
     if cfg.clip:
         for _ in range(draw(st.sampled_from([1, 1, 2, 3]))):
             defs["c"].append(_gen_clippath(draw, cx))
